@@ -84,6 +84,8 @@ func (x *explorer) searchVis(cfg visCfg) *devResult {
 				ge.Kind = "timeout"
 			case a.ev == evCrash:
 				ge.Kind = "crash"
+			case a.ev <= evLate:
+				ge.Kind, ge.K = "late", int(evLate-a.ev)
 			default:
 				ge.Kind, ge.K = "complete", int(evComplete-a.ev)
 			}
